@@ -17,6 +17,10 @@
           "nonfinite"  nan / inf: the property does not say whether this "can be converted";
                        the only demand is that no exception other than the format error escapes
           "true" / "false"  (fmt = "bool") one of the accepted truth tokens
+          "othernum"   (fmt = "bool") a number other than 0 / 1 (2, -1, 255, 2^64-1, 2.0, "2", ...) and
+                       the float / string spellings 1.0, 0.0, "1.0": the statement does not say whether
+                       these can be converted; the result is 0 or 1 or the format error, never
+                       another value or exception
 
    The pipeline  Convert -> ClampMin -> ClampMax -> StepRound -> Finalise  has one action per
    step of the code.  The design is exact arithmetic; the six significant digits the code keeps
@@ -83,7 +87,8 @@ AllowedNum(c) == IF c.fmt \in IntFormats
 \* every outcome the property allows for case c (exact arithmetic)
 Allowed(c) ==
     IF c.fmt = "bool"
-    THEN (CASE c.kind = "true" -> {Val(1)} [] c.kind = "false" -> {Val(0)} [] OTHER -> {FmtErr})
+    THEN (CASE c.kind = "true" -> {Val(1)} [] c.kind = "false" -> {Val(0)}
+            [] c.kind = "othernum" -> {Val(0), Val(1), FmtErr} [] OTHER -> {FmtErr})
     ELSE CASE c.kind = "num" -> { Val(y) : y \in AllowedNum(c) }
            [] c.kind = "nonfinite" -> {FmtErr, Unspecified}
            [] OTHER -> {FmtErr}
@@ -138,6 +143,7 @@ Accept(c, o) ==
     /\ IF c.fmt = "bool"
        THEN (CASE c.kind = "true" -> o.kind = "value" /\ TypeOk(c, o) /\ o.lo = 1
                [] c.kind = "false" -> o.kind = "value" /\ TypeOk(c, o) /\ o.lo = 0
+               [] c.kind = "othernum" -> o.kind = "FormatError" \/ (o.kind = "value" /\ TypeOk(c, o))
                [] OTHER -> o.kind = "FormatError")
        ELSE CASE c.kind = "num" -> o.kind = "value" /\ TypeOk(c, o) /\ AcceptNum(c, o)
               [] c.kind = "nonfinite" -> TRUE
@@ -160,7 +166,7 @@ WellFormed(c) ==
     /\ c.st >= 0
     /\ c.fmt \in IntFormats => (c.lo % c.S = 0 /\ c.hi % c.S = 0 /\ c.st % c.S = 0)
 
-BoolCases == { Case("bool", 1, None, None, None, k, 0) : k \in {"true", "false", "garbage"} }
+BoolCases == { Case("bool", 1, None, None, None, k, 0) : k \in {"true", "false", "othernum", "garbage"} }
 BadCases(fmts) == { Case(f, 1, l, h, s, k, 0) :
                       f \in fmts, l \in {None, Some(0)}, h \in {None, Some(100)}, s \in {None, Some(1)},
                       k \in {"garbage", "nonfinite"} }
@@ -220,7 +226,7 @@ Init == /\ \E k \in Shapes : \E x \in InputsOf(k) : c = [k EXCEPT !.v = x]
 
 BoolMap ==          \* strtobool(str(val)) -> 1 / 0, anything else is a format error
     /\ pc = "convert" /\ c.fmt = "bool"
-    /\ res' = (CASE c.kind = "true" -> Val(1) [] c.kind = "false" -> Val(0) [] OTHER -> FmtErr)
+    /\ res' \in Allowed(c)
     /\ pc' = "done" /\ UNCHANGED <<c, val>>
 
 ConvertFail ==      \* Decimal(val) impossible -> the library's format error
